@@ -179,7 +179,246 @@ def k_program(d):
     return out
 
 
-KINDS = {'figure_tax': k_figure_tax, 'solve': k_solve, 'program': k_program}
+def k_input_value(d):
+    """Replays one input text through the real InputStore for an input class."""
+    import configparser, math, enum as _e
+    from habutax import inputs as I, enum as E
+    small = E.make('T', {'ab': 'first', 'c': 'second', 'Ab': 'third'})
+    mk = {
+        'StringInput': lambda: I.StringInput('x'), 'BooleanInput': lambda: I.BooleanInput('x'), 'IntegerInput': lambda: I.IntegerInput('x'),
+        'FloatInput': lambda: I.FloatInput('x'), 'FloatInput8': lambda: I.FloatInput('x'), 'EnumInput': lambda: I.EnumInput('x', small),
+        'EnumInputEmpty': lambda: I.EnumInput('x', small, allow_empty=True),
+        'RegexRouting': lambda: I.RegexInput('x', '^(0[1-9]|1[0-2]|2[1-9]|3[0-2])[0-9]{7}$'), 'RegexAccount': lambda: I.RegexInput('x', '^[0-9A-Za-z\\-]{1,17}$'),
+        'SSNInput': lambda: I.SSNInput('x')}[d['cls']]
+    kind = {'StringInput': str, 'BooleanInput': bool, 'IntegerInput': int, 'FloatInput': float, 'FloatInput8': float, 'RegexRouting': str, 'RegexAccount': str, 'SSNInput': str}.get(d['cls'])
+
+    class FakeForm(object):
+        def name(self):
+            return 'f'
+
+    class Cfg(object):
+        def has_option(self, s, k):
+            return True
+
+        def get(self, s, k):
+            return d['text']
+    inp = mk()
+    inp.__form_init__(FakeForm())
+    store = I.InputStore.__new__(I.InputStore)
+    store.config = Cfg()
+    store.input_specs = {'f.x': inp}
+    outcome, val = None, None
+    try:
+        val = store['f.x']
+        outcome = 'value'
+    except I.MissingInput:
+        outcome = 'missing'
+    except I.InvalidInput:
+        outcome = 'invalid'
+    except Exception as e:
+        outcome = 'exc:' + type(e).__name__
+    try:
+        valid = inp.valid(d['text'])
+    except Exception as e:
+        valid = 'exc:' + type(e).__name__
+    try:
+        inp.value(d['text'])
+        raises = None
+    except Exception as e:
+        raises = type(e).__name__
+    found = []
+    if outcome == 'value':
+        if valid is not True:
+            found.append('value-but-invalid')
+        if kind is not None and type(val) is not kind:
+            found.append('wrong-type')
+        if kind is None and not (val is None or isinstance(val, _e.Enum)):
+            found.append('wrong-type')
+        if isinstance(val, float) and not math.isfinite(val):
+            found.append('non-finite')
+    elif outcome == 'invalid':
+        if valid is not False:
+            found.append('invalid-but-valid')
+    elif outcome == 'missing':
+        found.append('missing-but-present')
+    else:
+        found.append('leak')
+    if raises not in (None, 'ValueError'):
+        found.append('leak')
+    if (valid is True) != (raises is None) and kind in (bool, int, float, None):
+        found.append('valid-value-drift')
+    exp = d['expect']
+    rep = exp in found or any(f.startswith(exp.split('-')[0]) for f in found if exp.startswith('leak') or exp.startswith('value-raises'))
+    return {'reproduced': bool(rep), 'found': found, 'detail': 'store[%r] -> %s %r; valid=%s value() raises %s' % (d['text'], outcome, val, valid, raises)}
+
+
+def k_field_value(d):
+    """Concrete re-check of the typed-field contract for one returned-value tag."""
+    from habutax import fields as F, enum as E
+    en = E.make('Color', {'red': 'r', 'green': 'g'})
+    other = E.make('Other', {'red': 'r', 'x': 'x'})
+
+    class FakeForm(object):
+        def name(self):
+            return 'frm'
+    samples = {'none': [None], 'bool': [True, False], 'int': [0, 7, -3], 'float': [0.0, 1.005, 2.675, -1234.56789, 0.125], 'blank': ['', ' ', '\t \n'],
+               'text': ['a', ' b '], 'enum': list(en), 'other_enum': list(other)}[d['tag']]
+    fname, places = d['field'], d['places']
+    good = {'StringField': ('none', 'blank', 'text'), 'BooleanField': ('none', 'blank', 'bool'), 'IntegerField': ('none', 'blank', 'int'),
+            'FloatField': ('none', 'blank', 'float'), 'EnumField': ('none', 'blank', 'enum')}[fname]
+    bad = []
+    for ret in samples:
+        fn = lambda s, i, v, ret=ret: ret
+        if fname == 'StringField':
+            fld, typ, empty = F.StringField('ln', fn), str, ''
+        elif fname == 'BooleanField':
+            fld, typ, empty = F.BooleanField('ln', fn), bool, False
+        elif fname == 'IntegerField':
+            fld, typ, empty = F.IntegerField('ln', fn), int, 0
+        elif fname == 'FloatField':
+            fld, typ, empty = F.FloatField('ln', fn, places=places), float, 0.0
+        else:
+            fld, typ, empty = F.EnumField('ln', en, fn), en, None
+        fld.__form_init__(FakeForm())
+        try:
+            out = ('value', fld.value({}, {}))
+        except TypeError as e:
+            out = ('TypeError', str(e))
+        except Exception as e:
+            out = ('exc', type(e).__name__)
+        if d['tag'] in good:
+            if out[0] != 'value':
+                bad.append((ret, out))
+            elif d['tag'] in ('none', 'blank'):
+                if not (out[1] == empty and type(out[1]) is type(empty)):
+                    bad.append((ret, out))
+            elif type(out[1]) is not typ:
+                bad.append((ret, out))
+            elif fname == 'FloatField' and (abs(out[1] - ret) > 0.5 * 10 ** -places + 1e-6 or abs(out[1] * 10 ** places - round(out[1] * 10 ** places)) > 1e-6):
+                bad.append((ret, out))
+        else:
+            if out[0] != 'TypeError' or 'frm.ln' not in out[1]:
+                bad.append((ret, out))
+    return {'reproduced': bool(bad), 'detail': repr(bad[:2])[:300]}
+
+
+def run_cli_session(d):
+    """Drives the real habutax.solve(args) (prompting + write-back) over real
+    temp files with a scripted input(); optionally interrupts at the k-th
+    prompt.  Returns what was asked, the file contents afterwards and what a
+    re-run asks."""
+    import argparse, builtins, configparser, contextlib, io, os, re, tempfile
+    import habutax
+    tmp = tempfile.mkdtemp(prefix='hvcli')
+    infile = os.path.join(tmp, 'in.habutax')
+    cp = configparser.ConfigParser()
+    removed = set(d.get('remove', []))
+    kept = {}
+    for name, text in d['inputs'].items():
+        if name in removed:
+            continue
+        sec, key = name.split('.', 1)
+        if not cp.has_section(sec):
+            cp.add_section(sec)
+        cp.set(sec, key, text.replace('%', '%%'))
+        kept[name] = text
+    with open(infile, 'w') as f:
+        cp.write(f)
+    answers = dict(d['inputs'])
+    answers.update(d.get('answers', {}))
+    intr = d.get('interrupt') or {}
+
+    def session(k, kind, log, forbid=None):
+        state = {'n': 0}
+
+        def fake_input(prompt=''):
+            m = re.search(r'----\[ (.*?) \]----', prompt)
+            name = m.group(1) if m else log[-1][0] if log else '?'
+            if not m and log:
+                # "Invalid input, try again?" : the previous answer was rejected
+                log.append((name, 'REASK'))
+                raise KeyboardInterrupt()
+            if forbid is not None and name in forbid:
+                log.append((name, 'ASKED-AGAIN'))
+            if k is not None and state['n'] == k:
+                state['n'] += 1
+                raise {'KeyboardInterrupt': KeyboardInterrupt, 'EOFError': EOFError}[kind]()
+            state['n'] += 1
+            ans = answers.get(name, '')
+            log.append((name, ans))
+            return ans
+        args = argparse.Namespace(input_file=infile, year=d['year'], forms=list(d['forms']), prompt_missing=True, writeback_input=True,
+                                  solution=os.path.join(tmp, 'sol%d.txt' % len(os.listdir(tmp))))
+        old = builtins.input
+        builtins.input = fake_input
+        exc = None
+        try:
+            with contextlib.redirect_stdout(io.StringIO()):
+                habutax.solve(args)
+        except BaseException as e:  # noqa
+            exc = type(e).__name__
+        finally:
+            builtins.input = old
+        sol = None
+        if os.path.exists(args.solution):
+            with open(args.solution) as f:
+                sol = f.read()
+        return exc, sol
+    log1 = []
+    exc1, sol1 = session(intr.get('k'), intr.get('kind', 'KeyboardInterrupt'), log1)
+    out = {'exc1': exc1, 'asked1': log1, 'findings': []}
+    # the file afterwards
+    after = configparser.ConfigParser()
+    try:
+        with open(infile) as f:
+            after.read_file(f)
+        parsed = True
+    except Exception as e:
+        parsed = False
+        out['findings'].append('file-not-wellformed:%s' % type(e).__name__)
+    if parsed:
+        def getv(name):
+            sec, key = name.split('.', 1)
+            try:
+                return after.get(sec, key) if after.has_option(sec, key) else None
+            except Exception as e:
+                return 'ERR:' + type(e).__name__
+        for name, text in kept.items():
+            if getv(name) != text.strip():
+                out['findings'].append('lost-or-changed-prior:%s' % name)
+                break
+        given = [(n, a) for n, a in log1 if a not in ('REASK', 'ASKED-AGAIN')]
+        for name, a in given:
+            if getv(name) != a.strip():
+                out['findings'].append('lost-answer:%s' % name)
+                break
+        log2 = []
+        exc2, sol2 = session(None, None, log2, forbid=set(n for n, a in given))
+        out['exc2'] = exc2
+        out['asked2'] = log2
+        if any(a == 'ASKED-AGAIN' for n, a in log2):
+            out['findings'].append('asks-again')
+        if intr.get('k') is None and exc1 is None:
+            if [x for x in log2 if x[1] != 'ASKED-AGAIN']:
+                out['findings'].append('rerun-asks')
+            if sol1 != sol2:
+                out['findings'].append('rerun-differs')
+    import shutil
+    shutil.rmtree(tmp, ignore_errors=True)
+    return out
+
+
+def k_cli_session(d):
+    out = run_cli_session(d)
+    exp = d.get('expect')
+    if exp is None:
+        return out
+    out['reproduced'] = any(f.split(':')[0] == exp for f in out['findings'])
+    out['detail'] = 'findings=%s exc=%s asked=%d' % (out['findings'], out['exc1'], len(out['asked1']))
+    return out
+
+
+KINDS = {'cli_session': k_cli_session, 'field_value': k_field_value, 'figure_tax': k_figure_tax, 'solve': k_solve, 'program': k_program, 'input_value': k_input_value}
 
 
 def main():
